@@ -1074,6 +1074,7 @@ func (e *Engine) model(st *state, fr *frame, in ssa.CallInstruction, fn *ssa.Fun
 			base := len(sub.conds)
 			for _, r := range e.callFunc(sub, fr, in, body, nil, free) {
 				arm := &Arm{Events: r.st.events}
+				walkEvents(arm.Events, func(x *Event, _ int) { x.Once = true })
 				if len(r.st.conds) > base {
 					arm.Conds = r.st.conds[base:]
 				}
